@@ -221,74 +221,6 @@ pub fn pool_case(cfg: Cfg, flat_input: bool) -> Case {
     }
 }
 
-/// Small architectures for the composition clause: `predict` == the layers' public `forward`s in order.
-#[derive(Clone, Debug)]
-pub enum L {
-    Dense(usize, Act, bool),
-    Conv(usize, (usize, usize), (usize, usize), (usize, usize), (usize, usize), Act),
-    Deconv(usize, (usize, usize), (usize, usize), (usize, usize), Act),
-    Pool((usize, usize), (usize, usize)),
-}
-
-pub fn build_net(input: Shape, layers: &[L]) -> Network {
-    let mut net = Network::new(input);
-    for l in layers {
-        match l {
-            L::Dense(n, a, b) => net.dense(*n, a.lib(), *b, None),
-            L::Conv(f, k, s, p, d, a) => net.convolution(*f, *k, *s, *p, *d, a.lib(), None),
-            L::Deconv(f, k, s, p, a) => net.deconvolution(*f, *k, *s, *p, a.lib(), None),
-            L::Pool(k, s) => net.maxpool(*k, *s),
-        }
-    }
-    net
-}
-
-/// Replace every parameter of the network by named variables `L{i}w…` / `L{i}b…`.
-pub fn symbolize(ctx: &mut Ctx, net: &mut Network, prefix: &str) {
-    for (i, layer) in net.layers.iter_mut().enumerate() {
-        symbolize_layer(ctx, layer, &format!("{}L{}", prefix, i));
-    }
-}
-pub fn symbolize_layer(ctx: &mut Ctx, layer: &mut Layer, p: &str) {
-    if let Layer::Feedback(_) = layer {
-        // feedback blocks are symbolised by `symbolize_feedback` (the case knows the loop count)
-        return;
-    }
-    let (ws, b) = hooks::params(layer);
-    if ws.is_empty() {
-        return;
-    }
-    let nws: Vec<Tensor> = ws
-        .iter()
-        .enumerate()
-        .map(|(f, w)| match &w.data {
-            Data::Double(d) => t2(&v2(ctx, &format!("{}w", p), d.len(), d[0].len())),
-            Data::Triple(d) => t3(&v3(ctx, &format!("{}k{}", p, f), d.len(), d[0].len(), d[0][0].len())),
-            _ => panic!("harness: unexpected parameter rank"),
-        })
-        .collect();
-    let nb = b.map(|b| t1(&v1(ctx, &format!("{}b", p), d1(&b).len())));
-    hooks::set_params(layer, nws, nb);
-}
-
-/// Every repetition of a coupled layer gets the *same* variables (weight tying); `period` = layers per loop.
-pub fn symbolize_feedback(ctx: &mut Ctx, layer: &mut Layer, period: usize, p: &str) {
-    if let Layer::Feedback(fb) = layer {
-        for j in 0..fb.layers.len() {
-            let name = format!("{}f{}", p, j % period);
-            symbolize_layer(ctx, &mut fb.layers[j], &name);
-        }
-    }
-}
-
-pub fn input_tensor(ctx: &mut Ctx, shape: &Shape, p: &str) -> Tensor {
-    match shape {
-        Shape::Single(n) => t1(&v1(ctx, p, *n)),
-        Shape::Triple(c, h, w) => t3(&v3(ctx, p, *c, *h, *w)),
-        _ => panic!("harness: unsupported input shape"),
-    }
-}
-
 pub fn net_case(name: &'static str, input: Shape, layers: Vec<L>, max_paths: usize) -> Case {
     Case {
         id: format!("C02/network/{}", name),
